@@ -8,7 +8,7 @@ class C03(KernelProp):
     quick_cases = 900
     thorough_cases = 50000
     n_ops = (10, 40)
-    weights = {"new": 6, "enter": 8, "exit": 4, "add": 26, "addf": 12, "getnw": 14, "get": 8, "finish": 3,
+    weights = {"new": 6, "cancelget": 1, "enter": 8, "exit": 4, "add": 26, "addf": 12, "getnw": 14, "get": 8, "finish": 3,
                "getall": 14, "addtd": 2, "current": 0, "parent": 0, "spawn": 1, "state": 1}
     gen_kwargs = {"max_ctx": 5, "malformed": 0.2, "wrong_state": 0.1, "exc_end": 0.2}
     rule = ("adds, factory registrations and lookups in few contexts over 4 types x 3 names so that pairs collide: single "
